@@ -71,30 +71,39 @@ fn c12(seed: u64) -> i32 {
         let n = 1 + r.below(2) as usize;
         scripts.push((0..n).map(|_| (r.below(pool.len() as u64) as usize, r.below(pool.len() as u64) as usize, r.below(4) as usize, r.below(4))).collect());
     }
-    // reference: every distinct call once, in isolation, before any thread starts
-    let mut reference: BTreeMap<(usize, usize, usize, u64), Vec<u64>> = BTreeMap::new();
-    for s in scripts.iter().flatten() {
-        reference.entry(*s).or_insert_with(|| one_call(&pool[s.0], &pool[s.1], OPS[s.2], s.3));
-    }
-    let reference = Arc::new(reference);
+    // reference: every distinct call once, in isolation — in half of the scenarios before any thread starts, in the
+    // other half only after all threads have finished, so that the threads make the process's very first calls
+    // (first-use initialisation races)
+    let reference_first = r.chance(1, 2);
+    let all: Vec<(usize, usize, usize, u64)> = scripts.iter().flatten().cloned().collect();
+    let compute = |all: &[(usize, usize, usize, u64)]| {
+        let mut reference: BTreeMap<(usize, usize, usize, u64), Vec<u64>> = BTreeMap::new();
+        for s in all {
+            reference.entry(*s).or_insert_with(|| one_call(&pool[s.0], &pool[s.1], OPS[s.2], s.3));
+        }
+        reference
+    };
+    let early = if reference_first { Some(compute(&all)) } else { None };
     let mut handles = Vec::new();
-    for (t, script) in scripts.into_iter().enumerate() {
-        let (pool, reference) = (pool.clone(), reference.clone());
+    for script in scripts.into_iter() {
+        let pool = pool.clone();
         handles.push(std::thread::spawn(move || {
-            let mut bad = 0;
-            for s in script {
-                let got = one_call(&pool[s.0], &pool[s.1], OPS[s.2], s.3);
-                if &got != reference.get(&s).unwrap() {
-                    println!("MIRI-VIOLATION property=C12 thread {} call {:?}: result differs from the same call in isolation", t, s);
-                    bad += 1;
-                }
-            }
-            bad
+            script.into_iter().map(|s| (s, one_call(&pool[s.0], &pool[s.1], OPS[s.2], s.3))).collect::<Vec<_>>()
         }));
     }
+    let results: Vec<Vec<_>> = handles.into_iter().map(|h| h.join().unwrap_or_default()).collect();
+    let reference = match early {
+        Some(x) => x,
+        None => compute(&all),
+    };
     let mut bad = 0;
-    for h in handles {
-        bad += h.join().unwrap_or(1);
+    for (t, rs) in results.iter().enumerate() {
+        for (s, got) in rs {
+            if got != reference.get(s).unwrap() {
+                println!("MIRI-VIOLATION property=C12 thread {} call {:?}: result differs from the same call in isolation", t, s);
+                bad += 1;
+            }
+        }
     }
     let after: Vec<Vec<u64>> = pool.iter().map(image).collect();
     if before != after {
